@@ -17,8 +17,10 @@
 //!   verified by drawing a `RandomState` and comparing.
 //!
 //! If the cell cannot be located or verification fails, `available()` is false and callers fall
-//! back to one thread per execution (`explore::isolated`). The search additionally cross-checks
-//! its first executions against real fresh threads (same canonical state required).
+//! back to one pristine thread per execution (`explore::isolated`). The search additionally
+//! re-runs its first executions on real fresh OS threads (which apply the same initialisation,
+//! `reset`, at their start) and requires the same canonical state: any *other* per-thread state
+//! that leaked from earlier executions into an in-place execution would show up as a difference.
 
 use std::cell::Cell;
 use std::hash::RandomState;
@@ -127,6 +129,9 @@ pub fn reset(seed: u64) -> bool {
         return false;
     }
     mc::shim::arm();
+    // make sure the thread's ThreadRng exists *before* the entropy stream is rewound: its lazy
+    // first initialisation draws a seed of its own, which would shift the stream on a new thread
+    let mut rng = rand::rng();
     mc::entropy::reset(seed);
     mc::vclock::reset();
     let slot = SLOT.with(|c| c.get()).expect("available");
@@ -134,5 +139,5 @@ pub fn reset(seed: u64) -> bool {
         SLOT.with(|c| c.set(None));
         return false;
     }
-    rand::rng().reseed().is_ok()
+    rng.reseed().is_ok()
 }
